@@ -49,14 +49,14 @@ ORACLES = {
         'lowering::extract_int_literal': [], 'lowering::pow_exponent_kind': [],
         'emit::determine_binop_plan': ['incan::binop_plan'], 'emit::emit_binop_token': ['incan::binop_plan'],
         'checker::check_binary': ['incan::static_type'],
-        '*': ['core::policy', 'incan::exponent_kind', 'incan::binop_plan', 'incan::static_type'],
+        '*': ['core::policy', 'incan::exponent_kind', 'incan::binop_plan', 'incan::static_type', 'incan::emit_promotion'],
     },
     'C19': {
         'lsp::offset_to_position': ['lsp::offset_to_position', 'lsp::round_trip', 'lsp::monotone', 'lsp::span_to_range'],
         'lsp::position_to_offset': ['lsp::position_to_offset', 'lsp::round_trip'],
         'lsp::span_to_range': ['lsp::span_to_range'],
         'syntax::get_line_info': ['syntax::get_line_info'],
-        '*': ['lsp::offset_to_position', 'lsp::round_trip', 'lsp::position_to_offset', 'lsp::monotone', 'lsp::span_to_range', 'syntax::get_line_info'],
+        '*': ['lsp::offset_to_position', 'lsp::round_trip', 'lsp::position_to_offset', 'lsp::monotone', 'lsp::span_to_range', 'syntax::get_line_info', 'lsp::diagnostic_range'],
     },
 }
 
